@@ -1,6 +1,7 @@
 import CGV.Props.C07
 import CGV.Props.C07Path
 import CGV.Props.C07Tree
+import CGV.Props.C07TreeGraph
 #print axioms CGV.C07.C07_symbols_inverse
 #print axioms CGV.C07.C07_single_bond_silent
 #print axioms CGV.C07.C07_marker_fresh
@@ -18,3 +19,8 @@ import CGV.Props.C07Tree
 #print axioms CGV.C07.render_itemsT
 #print axioms CGV.C07.itemsT_balanced
 #print axioms CGV.C07.exGraph_emb
+#print axioms CGV.C07.C07_tree_text
+#print axioms CGV.C07.C07_tree_roundtrip_closed
+#print axioms CGV.C07.graphOfTree_emb
+#print axioms CGV.C07.embT_block
+#print axioms CGV.C07.embK_block
